@@ -131,7 +131,7 @@ func (s *appStream) boot(r *tr.Rng) {
 	bk := &keys.BtcKey{Kind: "0", Pub: pub.SerializeCompressed(), Priv: priv}
 	s.rel = &relayerStream{worldStream: s.worldStream, btcKey: bk}
 	s.rel.k = 1
-	s.btc = &bitcoinStream{worldStream: s.worldStream, net: &chaincfg.RegressionNetParams, blocks: map[uint64]*btcBlock{}, wds: map[uint64]*wd{}, nextWid: 1, genesisValidTax: s.profile == "app-export",
+	s.btc = &bitcoinStream{worldStream: s.worldStream, net: &chaincfg.RegressionNetParams, blocks: map[uint64]*btcBlock{}, wds: map[uint64]*wd{}, nextWid: 1, genesisValidTax: s.profile == "app-export", taxBias: s.profile == "app-export-tax",
 		keys: []*keys.BtcKey{bk}, unreg: keys.NewBtcKey(r, "0")}
 	s.btc.k = 1
 	for i := 0; i < 4; i++ {
@@ -801,7 +801,23 @@ func (s *appStream) genBlock(r *tr.Rng) {
 		s.emit(detOp, "ok")
 	}
 	if !halt && ((strings.HasPrefix(s.profile, "app-export") && s.blocks%12 == 0) || (s.profile == "app" && s.blocks%97 == 0)) {
-		s.emit(s.exportImport(r), "ok")
+		eo := s.exportImport(r)
+		// lr: does the locking + relayer part of the state round-trip (what GoatModel.Genesis models)?
+		// "-" when the run cannot tell (another module made the import fail first)
+		lr := "1"
+		if eo.Str("same") == "0" {
+			d := eo.Str("detail")
+			switch {
+			case strings.HasPrefix(d, "state-differs:rel:"), strings.HasPrefix(d, "state-differs:lock:"), strings.HasPrefix(d, "initial-validator-set-differs"),
+				strings.HasPrefix(d, "second-export-differs:module0"), strings.HasPrefix(d, "second-export-differs:module2"),
+				strings.Contains(d, "voter"), strings.Contains(d, "vote_key"), strings.Contains(d, "validator"):
+				lr = "0"
+			default:
+				lr = "-"
+			}
+		}
+		eo.Add("lrobs", tr.B(lr != "-"))
+		s.emit(eo, "ok lr="+lr)
 	}
 	if dump || halt {
 		s.emitDumps()
@@ -1301,7 +1317,7 @@ func (s *appStream) exportImport(r *tr.Rng) (op *tr.Op) {
 		fmt.Sprintf("goat head=%x|%d|%x beacon=%x", head.BlockHash, head.BlockNumber, head.ParentHash, beacon)}
 	for i, b := range before {
 		if canonDump(b.res) != canonDump(after[i]) {
-			return fail("state-differs:" + diffTokens(canonDump(b.res), canonDump(after[i])))
+			return fail("state-differs:" + []string{"rel", "btc", "lock", "goat"}[i] + ":" + diffTokens(canonDump(b.res), canonDump(after[i])))
 		}
 	}
 	// a second export is identical to the first (module by module; the imported chain has not
